@@ -274,7 +274,9 @@ def _get_condition_function(qubit_index, measurement_value):
     return condition
 
 
-def _map_qiskit_instr_to_pq(qiskit_instruction, modes, aux_modes):
+def _map_qiskit_instr_to_pq(
+    qiskit_instruction, modes, aux_modes, clbit_positions=None
+):
     instruction_name = qiskit_instruction.name
     instructions = []
     if instruction_name == "h":
@@ -319,9 +321,17 @@ def _map_qiskit_instr_to_pq(qiskit_instruction, modes, aux_modes):
 
         cond = qiskit_instruction.operation.condition
 
-        condition = _get_condition_function(cond[0]._index, cond[1])
+        # NOTE: The outcomes are recorded in the order of the measurements, which is
+        # not necessarily the index of the classical bit they are written to.
+        clbit_index = cond[0]._index
+        if clbit_positions is not None:
+            clbit_index = clbit_positions.get(clbit_index, clbit_index)
+
+        condition = _get_condition_function(clbit_index, cond[1])
         for inner_instr_qiskit in true_branch_instructions:
-            instr_list = _map_qiskit_instr_to_pq(inner_instr_qiskit, modes, aux_modes)
+            instr_list = _map_qiskit_instr_to_pq(
+                inner_instr_qiskit, modes, aux_modes, clbit_positions
+            )
             for instr in instr_list:
                 instructions.append(instr.when(condition))
     else:
@@ -354,8 +364,13 @@ def _encode_dual_rail_from_qiskit(qc):
     instructions.extend(preparations)
 
     cz_idx = 0
+    clbit_positions: dict = {}
     for instr_qiskit in qc.data:
         qubit_indices = [qc.find_bit(q).index for q in instr_qiskit.qubits]
+        if instr_qiskit.name == "measure":
+            clbit_positions[qc.find_bit(instr_qiskit.clbits[0]).index] = len(
+                clbit_positions
+            )
 
         if instr_qiskit.name in ("cz", "cx"):
             if instr_qiskit.name == "cz":
@@ -373,7 +388,9 @@ def _encode_dual_rail_from_qiskit(qc):
             qubit = qubit_indices[0]
             modes = [2 * qubit, 2 * qubit + 1]
             aux_modes = []
-        mapped_instructions = _map_qiskit_instr_to_pq(instr_qiskit, modes, aux_modes)
+        mapped_instructions = _map_qiskit_instr_to_pq(
+            instr_qiskit, modes, aux_modes, clbit_positions
+        )
         instructions.extend(mapped_instructions)
 
     return instructions
